@@ -285,10 +285,21 @@ fn run_helper(t: &[String]) -> String {
             match PlutusList::from_bytes(b) { Ok(l) => Some(l), Err(_) => return "stale-case:list_does_not_decode".to_string() }
         }
     };
+    let (vk, bo): (Option<Vec<u8>>, Option<Vec<u8>>) = if p.i < p.t.len() {
+        p.expect("V"); let v = p.next(); let v = if v == "~" { None } else { Some(unhex_or_dash(v)) };
+        p.expect("B"); let b = p.next(); let b = if b == "~" { None } else { Some(unhex_or_dash(b)) };
+        (v, b)
+    } else { (None, None) };
     let costmdls = cm.build();
     let h = hash_script_data(&rs, &costmdls, datums.clone());
     // the witness set a caller would emit for the same redeemers and datums
     let mut ws = TransactionWitnessSet::new();
+    if let Some(v) = &vk {
+        match Vkeywitnesses::from_bytes(v.clone()) { Ok(x) => { if &x.to_bytes() != v || x.len() == 0 { return "stale-case:vkeys_bytes_differ".to_string(); } ws.set_vkeys(&x); } Err(_) => return "stale-case:vkeys_do_not_decode".to_string() }
+    }
+    if let Some(v) = &bo {
+        match BootstrapWitnesses::from_bytes(v.clone()) { Ok(x) => { if &x.to_bytes() != v || x.len() == 0 { return "stale-case:bootstraps_bytes_differ".to_string(); } ws.set_bootstraps(&x); } Err(_) => return "stale-case:bootstraps_do_not_decode".to_string() }
+    }
     ws.set_redeemers(&rs);
     if let Some(d) = &datums { ws.set_plutus_data(d); }
     format!("ok h={} ws={}", hex::encode(h.to_bytes()), hex_or_dash(&ws.to_bytes()))
@@ -307,7 +318,7 @@ struct AuxD { md: Option<Vec<(u64, Vec<u8>)>>, native: Option<Vec<u8>>, plutus: 
 #[derive(Clone)]
 enum Wire { S(Vec<(u64, Vec<u8>)>), M(Vec<(u64, Vec<u8>)>, Vec<u8>), A(Option<Vec<(u64, Vec<u8>)>>, Option<Vec<u8>>, [Option<Vec<Vec<u8>>>; 3]) }
 #[derive(Clone)]
-enum Op { Sub(u64, u64, Vec<W>), Extra(usize), Calc(Cm), SetHash(Vec<u8>), RmHash, SetAux(AuxD), RmAux, SetMd(Vec<(u64, Vec<u8>)>), AddMd(u64, Vec<u8>),
+enum Op { Sub(u64, u64, Vec<W>, Vec<u64>, Vec<Vec<u8>>), Extra(usize), Calc(Cm), SetHash(Vec<u8>), RmHash, SetAux(AuxD), RmAux, SetMd(Vec<(u64, Vec<u8>)>), AddMd(u64, Vec<u8>),
           AddJson(u64, u64, String, Vec<u8>), SetAuxW(Wire) }
 
 fn md_to_string(md: &[(u64, Vec<u8>)]) -> String {
@@ -317,13 +328,15 @@ fn md_to_string(md: &[(u64, Vec<u8>)]) -> String {
 }
 fn op_to_string(o: &Op) -> String {
     match o {
-        Op::Sub(k, ncol, ws) => {
+        Op::Sub(k, ncol, ws, stale, nat) => {
             let mut s = format!("sub {} {} {}", k, ncol, ws.len());
             for w in ws {
                 let a = match &w.src { Src::Inline(i) => format!("i{}", i), Src::Ref(l) => format!("r{}", l) };
                 let b = match &w.dat { Dat::None => "n".to_string(), Dat::Ref => "r".to_string(), Dat::Val(i) => format!("d{}", i) };
                 s += &format!(" {} {} {} {} {} {}", a, b, w.index, w.d, w.mem, w.steps);
             }
+            s += &format!(" {}", stale.len()); for l in stale { s += &format!(" {}", l); }
+            s += &format!(" {}", nat.len()); for n in nat { s += &format!(" {}", hex_or_dash(n)); }
             s
         }
         Op::Extra(i) => format!("extra {}", i),
@@ -375,12 +388,15 @@ fn parse_ops(p: &mut P) -> Vec<Op> {
     (0..n).map(|_| match p.next() {
         "sub" => {
             let k = p.num(); let ncol = p.num(); let nw = p.count();
-            Op::Sub(k, ncol, (0..nw).map(|_| {
+            let ws: Vec<W> = (0..nw).map(|_| {
                 let a = p.next(); let b = p.next();
                 let src = if a.starts_with('i') { Src::Inline(a[1..].parse().unwrap()) } else { Src::Ref(a[1..].parse().unwrap()) };
                 let dat = if b == "n" { Dat::None } else if b == "r" { Dat::Ref } else { Dat::Val(b[1..].parse().unwrap()) };
                 W { src, dat, index: p.num(), d: p.count(), mem: p.num(), steps: p.num() }
-            }).collect())
+            }).collect();
+            let ns = p.count(); let stale: Vec<u64> = (0..ns).map(|_| p.num()).collect();
+            let nn = p.count(); let nat: Vec<Vec<u8>> = (0..nn).map(|_| unhex_or_dash(p.next())).collect();
+            Op::Sub(k, ncol, ws, stale, nat)
         }
         "extra" => Op::Extra(p.count()),
         "calc" => Op::Calc(Cm::parse(p)),
@@ -469,9 +485,19 @@ enum Built { Inputs(TxInputsBuilder), Mint(MintBuilder), Certs(CertificatesBuild
 fn key_addr(i: u64) -> Address { EnterpriseAddress::new(0, &Credential::from_keyhash(&Ed25519KeyHash::from_bytes(h28(0x01, i)).unwrap())).to_address() }
 
 /// Builds the real sub-builder for sub kind k from a witness list and returns it with the list its getter reports.
-fn build_sub(ctx: &Ctx, k: u64, ncol: u64, ws: &[W]) -> Result<(Built, Vec<W>), String> {
+fn nat_bytes(ns: &NativeScripts) -> Vec<Vec<u8>> { (0..ns.len()).map(|i| ns.get(i).to_bytes()).collect() }
+fn nat_src(b: &[u8]) -> Result<(NativeScript, NativeScriptSource), String> {
+    let n = NativeScript::from_bytes(b.to_vec()).map_err(|_| "native script does not decode".to_string())?;
+    if n.to_bytes() != b { return Err("native script bytes differ".into()); }
+    let src = NativeScriptSource::new(&n);
+    Ok((n, src))
+}
+/// Returns the sub-builder, the Plutus witness list and the native-script list its getters report.
+fn build_sub(ctx: &Ctx, k: u64, ncol: u64, ws: &[W], stale: &[u64], nat: &[Vec<u8>]) -> Result<(Built, Vec<W>, Vec<Vec<u8>>), String> {
     let mut prev = vec![0u8; 28];
     let e = |x: JsError| x.to_string().replace(' ', "_");
+    if k >= 2 && !stale.is_empty() { return Err("stale witnesses exist only for inputs and collateral".into()); }
+    if k == 6 && !nat.is_empty() { return Err("the proposal builder takes no native scripts".into()); }
     match k {
         0 | 1 => {
             let mut b = TxInputsBuilder::new();
@@ -481,16 +507,29 @@ fn build_sub(ctx: &Ctx, k: u64, ncol: u64, ws: &[W]) -> Result<(Built, Vec<W>), 
                 let wit = mk_witness(ctx, w, &h, pos, k);
                 b.add_plutus_script_input(&wit, &TransactionInput::new(&h32(txid), w.index as u32), &Value::new(&bn(2_000_000)));
             }
+            // an input added with a Plutus witness and then again as a key input: the witness stays registered
+            for (j, l) in stale.iter().enumerate() {
+                let w = W { src: Src::Ref(*l), dat: Dat::None, index: 0, d: 0, mem: 1, steps: 1 };
+                let h = ScriptHash::from_bytes(h28(0xc5, j as u64)).unwrap();
+                let inp = TransactionInput::new(&h32(txid), 5000 + j as u32);
+                b.add_plutus_script_input(&mk_witness(ctx, &w, &h, 500 + j, k), &inp, &Value::new(&bn(2_000_000)));
+                b.add_regular_input(&key_addr(50 + j as u64), &inp, &Value::new(&bn(2_000_000))).map_err(e)?;
+            }
+            for (j, nb) in nat.iter().enumerate() {
+                let (_, src) = nat_src(nb)?;
+                b.add_native_script_input(&src, &TransactionInput::new(&h32(txid), 6000 + j as u32), &Value::new(&bn(2_000_000)));
+            }
             if k == 0 {
                 // the funding input sorts after every script input
                 b.add_regular_input(&key_addr(0), &TransactionInput::new(&h32(0xff), 0), &Value::new(&bn(4_000_000_000_000_000_000))).map_err(e)?;
             } else {
-                let nkeys = (ncol as usize).saturating_sub(ws.len());
+                let nkeys = (ncol as usize).saturating_sub(ws.len() + stale.len() + nat.len());
                 for j in 0..nkeys { b.add_regular_input(&key_addr(1 + j as u64), &TransactionInput::new(&h32(0x11), 1000 + j as u32), &Value::new(&bn(10_000_000))).map_err(e)?; }
             }
             let got = b.get_plutus_input_scripts().unwrap_or(PlutusWitnesses::new());
             let rb = read_back(ctx, &got, ws, 0)?;
-            Ok((Built::Inputs(b), rb))
+            let nb = b.get_native_input_scripts().map(|x| nat_bytes(&x)).unwrap_or(vec![]);
+            Ok((Built::Inputs(b), rb, nb))
         }
         2 => {
             let mut b = MintBuilder::new();
@@ -504,8 +543,13 @@ fn build_sub(ctx: &Ctx, k: u64, ncol: u64, ws: &[W]) -> Result<(Built, Vec<W>), 
                 };
                 b.add_asset(&MintWitness::new_plutus_script(&src, &red), &AssetName::new(vec![b't', pos as u8]).unwrap(), &Int::new_i32(1 + pos as i32)).map_err(e)?;
             }
+            for (j, nb) in nat.iter().enumerate() {
+                let (_, src) = nat_src(nb)?;
+                b.add_asset(&MintWitness::new_native_script(&src), &AssetName::new(vec![b'n', j as u8]).unwrap(), &Int::new_i32(1 + j as i32)).map_err(e)?;
+            }
             let rb = read_back(ctx, &b.get_plutus_witnesses(), ws, 1)?;
-            Ok((Built::Mint(b), rb))
+            let nb = nat_bytes(&b.get_native_scripts());
+            Ok((Built::Mint(b), rb, nb))
         }
         3 => {
             let mut b = CertificatesBuilder::new();
@@ -524,8 +568,14 @@ fn build_sub(ctx: &Ctx, k: u64, ncol: u64, ws: &[W]) -> Result<(Built, Vec<W>), 
                 }
             }
             if wi != ws.len() { return Err("certificate indices repeat".into()); }
+            for (j, nb) in nat.iter().enumerate() {
+                let (n, src) = nat_src(nb)?;
+                let cert = Certificate::new_stake_delegation(&StakeDelegation::new(&Credential::from_scripthash(&n.hash()), &Ed25519KeyHash::from_bytes(h28(0x13, j as u64)).unwrap()));
+                b.add_with_native_script(&cert, &src).map_err(e)?;
+            }
             let rb = read_back(ctx, &b.get_plutus_witnesses(), ws, 2)?;
-            Ok((Built::Certs(b), rb))
+            let nb = nat_bytes(&b.get_native_scripts());
+            Ok((Built::Certs(b), rb, nb))
         }
         4 => {
             let mut b = WithdrawalsBuilder::new();
@@ -534,8 +584,13 @@ fn build_sub(ctx: &Ctx, k: u64, ncol: u64, ws: &[W]) -> Result<(Built, Vec<W>), 
                 let addr = RewardAddress::new(0, &Credential::from_scripthash(&h));
                 b.add_with_plutus_witness(&addr, &bn(1000 + pos as u64), &mk_witness(ctx, w, &h, pos, k)).map_err(e)?;
             }
+            for (j, nb) in nat.iter().enumerate() {
+                let (n, src) = nat_src(nb)?;
+                b.add_with_native_script(&RewardAddress::new(0, &Credential::from_scripthash(&n.hash())), &bn(2000 + j as u64), &src).map_err(e)?;
+            }
             let rb = read_back(ctx, &b.get_plutus_witnesses(), ws, 3)?;
-            Ok((Built::Wdrl(b), rb))
+            let nb = nat_bytes(&b.get_native_scripts());
+            Ok((Built::Wdrl(b), rb, nb))
         }
         5 => {
             let mut b = VotingBuilder::new();
@@ -544,8 +599,13 @@ fn build_sub(ctx: &Ctx, k: u64, ncol: u64, ws: &[W]) -> Result<(Built, Vec<W>), 
                 let voter = Voter::new_drep_credential(&Credential::from_scripthash(&h));
                 b.add_with_plutus_witness(&voter, &GovernanceActionId::new(&h32(0x55), pos as u32), &VotingProcedure::new(VoteKind::Yes), &mk_witness(ctx, w, &h, pos, k)).map_err(e)?;
             }
+            for (j, nb) in nat.iter().enumerate() {
+                let (n, src) = nat_src(nb)?;
+                b.add_with_native_script(&Voter::new_drep_credential(&Credential::from_scripthash(&n.hash())), &GovernanceActionId::new(&h32(0x56), j as u32), &VotingProcedure::new(VoteKind::No), &src).map_err(e)?;
+            }
             let rb = read_back(ctx, &b.get_plutus_witnesses(), ws, 4)?;
-            Ok((Built::Votes(b), rb))
+            let nb = nat_bytes(&b.get_native_scripts());
+            Ok((Built::Votes(b), rb, nb))
         }
         _ => {
             let mut b = VotingProposalBuilder::new();
@@ -557,7 +617,7 @@ fn build_sub(ctx: &Ctx, k: u64, ncol: u64, ws: &[W]) -> Result<(Built, Vec<W>), 
                 b.add_with_plutus_witness(&prop, &mk_witness(ctx, w, &h, pos, k)).map_err(e)?;
             }
             let rb = read_back(ctx, &b.get_plutus_witnesses(), ws, 5)?;
-            Ok((Built::Props(b), rb))
+            Ok((Built::Props(b), rb, vec![]))
         }
     }
 }
@@ -599,9 +659,10 @@ fn run_builder(t: &[String]) -> String {
     let mut flags = String::new();
     for o in &ops {
         match o {
-            Op::Sub(k, ncol, ws) => {
-                let (b, rb) = match build_sub(&ctx, *k, *ncol, ws) { Ok(x) => x, Err(e) => return format!("stale-case:{}", e.replace(' ', "_")) };
+            Op::Sub(k, ncol, ws, stale, nat) => {
+                let (b, rb, nb) = match build_sub(&ctx, *k, *ncol, ws, stale, nat) { Ok(x) => x, Err(e) => return format!("stale-case:{}", e.replace(' ', "_")) };
                 if &rb != ws { return "stale-case:getter_returns_another_list".to_string(); }
+                if &nb != nat { return "stale-case:native_getter_returns_another_list".to_string(); }
                 match b {
                     Built::Inputs(x) => if *k == 0 { tb.set_inputs(&x) } else { tb.set_collateral(&x) },
                     Built::Mint(x) => tb.set_mint_builder(&x),
@@ -723,6 +784,15 @@ fn gen_helper(r: &mut Rng, stream: &str) -> String {
     let mut s = format!("h:{} {} R {} {}{}", stream, pool_to_string(&pool), fmt, k, gen_reds(r, &pool, k));
     s += &format!(" CM {} L", cm.to_string());
     match &list { None => s += " ~", Some((f, v)) => { s += &format!(" {} {}", f, v.len()); for i in v { s += &format!(" {}", i); } } }
+    if r.chance(1, 4) {
+        // key and bootstrap witnesses next to the script data (fields 0 and 2 of the emitted witness set)
+        let sk = PrivateKey::from_normal_bytes(&[7u8; 32]).unwrap();
+        let vkey = Vkey::new(&sk.to_public());
+        let sig = Ed25519Signature::from_bytes(r.bytes(64)).unwrap();
+        let v = if r.chance(2, 3) { let mut x = Vkeywitnesses::new(); x.add(&Vkeywitness::new(&vkey, &sig)); Some(x.to_bytes()) } else { None };
+        let b = if r.chance(1, 2) { let mut x = BootstrapWitnesses::new(); x.add(&BootstrapWitness::new(&vkey, &sig, r.bytes(32), vec![0xa0])); Some(x.to_bytes()) } else { None };
+        s += &format!(" V {} B {}", v.map(|x| hex::encode(x)).unwrap_or("~".into()), b.map(|x| hex::encode(x)).unwrap_or("~".into()));
+    }
     s
 }
 
@@ -803,10 +873,18 @@ fn gen_sub(r: &mut Rng, k: u64, n: usize, npool: usize, scripts: &[(u64, Vec<u8>
     ws
 }
 /// Normalises a candidate list through the real sub-builder: the case holds what the getter returns.
-fn normalise(ctx: &Ctx, k: u64, ncol: u64, ws: &[W]) -> Option<Vec<W>> {
-    let (_, rb) = build_sub(ctx, k, ncol, ws).ok()?;
-    let (_, rb2) = build_sub(ctx, k, ncol, &rb).ok()?;
-    if rb2 == rb { Some(rb) } else { None }
+fn normalise(ctx: &Ctx, k: u64, ncol: u64, ws: &[W], stale: &[u64], nat: &[Vec<u8>]) -> Option<(Vec<W>, Vec<Vec<u8>>)> {
+    let (_, rb, nb) = build_sub(ctx, k, ncol, ws, stale, nat).ok()?;
+    let (_, rb2, nb2) = build_sub(ctx, k, ncol, &rb, stale, &nb).ok()?;
+    if rb2 == rb && nb2 == nb { Some((rb, nb)) } else { None }
+}
+fn gen_native_script(r: &mut Rng) -> Vec<u8> {
+    let k = Ed25519KeyHash::from_bytes(h28(0x70, r.below(4))).unwrap();
+    match r.below(3) {
+        0 => NativeScript::new_script_pubkey(&ScriptPubkey::new(&k)).to_bytes(),
+        1 => NativeScript::new_timelock_start(&TimelockStart::new_timelockstart(&bn(r.below(3)))).to_bytes(),
+        _ => { let mut l = NativeScripts::new(); l.add(&NativeScript::new_script_pubkey(&ScriptPubkey::new(&k))); NativeScript::new_script_all(&ScriptAll::new(&l)).to_bytes() }
+    }
 }
 
 fn gen_builder(r: &mut Rng, stream: &str) -> Option<String> {
@@ -821,20 +899,29 @@ fn gen_builder(r: &mut Rng, stream: &str) -> Option<String> {
     let mut steps0 = 1000u64;
     let mut subs: Vec<Op> = Vec::new();
     let which: Vec<u64> = match stream {
-        "spend" => vec![0],
+        "spend" | "stalelang" => vec![0],
         "extra" | "aux" | "auxflip" | "auxwire" => vec![],
         "refonly" => vec![0, 2],
         _ => (0..7u64).filter(|k| *k == 0 || *k == 1 || r.chance(1, 2)).collect(),
     };
     let mut langs: Vec<u64> = Vec::new();
+    let native_pool: Vec<Vec<u8>> = (0..3).map(|_| gen_native_script(r)).collect();
     for k in &which {
         if *k == 1 { continue; }
         let n = if *k == 0 { r.range(1, 4) } else { r.range(1, 3) } as usize;
         let mut cand = gen_sub(r, *k, n, np, if stream == "refonly" { &[] } else { &scripts }, &mut steps0);
         if stream == "dupdatum" && *k == 0 { let d = r.below(np as u64) as usize; for w in cand.iter_mut() { w.dat = Dat::Val(d); } }
-        let ws = normalise(&ctx, *k, 0, &cand)?;
+        // stale witnesses (inputs only here): an input added with a Plutus witness, then again as a key input
+        let stale: Vec<u64> = if *k == 0 && (stream == "stalelang" || r.chance(1, 12)) { (0..r.range(1, 2)).map(|_| r.below(3)).collect() } else { vec![] };
+        if stream == "stalelang" && *k == 0 && r.chance(1, 2) { cand.clear(); }
+        // native scripts next to the Plutus ones (a small shared pool, so that the same script comes from several sub-builders)
+        let nat: Vec<Vec<u8>> = if *k != 6 && (stream == "native" || r.chance(1, 6)) { (0..r.range(1, 2)).map(|_| native_pool[r.below(native_pool.len() as u64) as usize].clone()).collect() } else { vec![] };
+        let mut nat = nat; nat.dedup();
+        if *k != 0 && *k != 1 { let mut seen: Vec<Vec<u8>> = Vec::new(); nat.retain(|x| if seen.contains(x) { false } else { seen.push(x.clone()); true }); }
+        let (ws, nat) = normalise(&ctx, *k, 0, &cand, &stale, &nat)?;
         for w in &ws { let l = match &w.src { Src::Inline(i) => scripts[*i].0, Src::Ref(l) => *l }; if !langs.contains(&l) { langs.push(l); } }
-        subs.push(Op::Sub(*k, 0, ws));
+        for l in &stale { if !langs.contains(l) { langs.push(*l); } }
+        subs.push(Op::Sub(*k, 0, ws, stale, nat));
     }
     // collateral: key inputs, sometimes a Plutus witness that repeats a spend witness (same redeemer after re-tagging)
     let mut ncol = if stream == "nocollateral" { 0 } else { r.range(1, 3) };
@@ -843,17 +930,19 @@ fn gen_builder(r: &mut Rng, stream: &str) -> Option<String> {
         // Plutus witnesses of their own on collateral inputs (calc_script_data_hash and get_witness_set both visit the collateral builder)
         let n = r.range(1, 2) as usize;
         let cand = gen_sub(r, 1, n, np, &scripts, &mut steps0);
-        if let Some(ws) = normalise(&ctx, 1, ncol.max(n as u64), &cand) { colw = ws; }
+        if let Some((ws, _)) = normalise(&ctx, 1, ncol.max(n as u64), &cand, &[], &[]) { colw = ws; }
         for w in &colw { let l = match &w.src { Src::Inline(i) => scripts[*i].0, Src::Ref(l) => *l }; if !langs.contains(&l) { langs.push(l); } }
     } else if (stream == "dupred" || r.chance(1, 10)) && ncol > 0 {
-        if let Some(Op::Sub(0, _, ws)) = subs.iter().find(|o| matches!(o, Op::Sub(0, _, _))) {
+        if let Some(Op::Sub(0, _, ws, _, _)) = subs.iter().find(|o| matches!(o, Op::Sub(0, _, _, _, _))) {
             if let Some(w) = ws.iter().find(|w| w.index == 0) { colw.push(w.clone()); }
         }
-        if let Some(ws) = normalise(&ctx, 1, ncol, &colw) { colw = ws; } else { colw.clear(); }
+        if let Some((ws, _)) = normalise(&ctx, 1, ncol, &colw, &[], &[]) { colw = ws; } else { colw.clear(); }
         for w in &colw { let l = match &w.src { Src::Inline(i) => scripts[*i].0, Src::Ref(l) => *l }; if !langs.contains(&l) { langs.push(l); } }
     }
     if ncol < colw.len() as u64 { ncol = colw.len() as u64; }
-    if which.contains(&1) || stream == "nocollateral" || !subs.is_empty() { subs.push(Op::Sub(1, ncol, colw)); }
+    let colnat: Vec<Vec<u8>> = if stream == "native" && ncol > 0 && r.chance(1, 2) { vec![native_pool[0].clone()] } else { vec![] };
+    if ncol < (colw.len() + colnat.len()) as u64 { ncol = (colw.len() + colnat.len()) as u64; }
+    if which.contains(&1) || stream == "nocollateral" || !subs.is_empty() { subs.push(Op::Sub(1, ncol, colw, vec![], colnat)); }
     let nextra = match stream { "extra" => r.range(1, 4), "spend" | "dupdatum" => r.below(3), _ => if r.chance(1, 2) { r.below(3) } else { 0 } };
     for _ in 0..nextra { subs.push(Op::Extra(r.below(np as u64) as usize)); }
     // any order of the additions
@@ -938,7 +1027,7 @@ fn main() {
             let toks: Vec<String> = line.split_whitespace().map(|x| x.to_string()).collect();
             out.emit(&line, &run_case(&toks));
         } }
-        let bstreams = ["spend", "mix", "mix", "mix", "refonly", "extra", "dupdatum", "dupred", "colplutus", "stale", "nohash", "nocollateral", "missingcm", "aux", "aux", "auxflip", "auxflip", "auxwire", "sethash", "recalc", "noopcalc"];
+        let bstreams = ["spend", "mix", "mix", "mix", "refonly", "extra", "dupdatum", "dupred", "colplutus", "stalelang", "stalelang", "native", "native", "stale", "nohash", "nocollateral", "missingcm", "aux", "aux", "auxflip", "auxflip", "auxwire", "sethash", "recalc", "noopcalc"];
         for _ in 0..(30 * scale) { for s in bstreams.iter() {
             if let Some(line) = gen_builder(&mut r, s) {
                 let toks: Vec<String> = line.split_whitespace().map(|x| x.to_string()).collect();
